@@ -363,6 +363,10 @@ func c09Run(b *core.B) {
 				continue
 			}
 			res := render(b, src, c09Ctx(g.partials))
+			if rep%5 == 0 {
+				parts := g.partials
+				renderAgain(b, src, func() *plush.Context { return c09Ctx(parts) }, res, "scope-program")
+			}
 			b.Count("shape:" + strings.Join(sh, ">"))
 			for l := range g.labels {
 				b.Count(l)
